@@ -363,7 +363,8 @@ impl EncodingVersion for EncodingVersion1 {
             return Self::deserialize_mmember(deserializer, member, dynamic_data);
         }
 
-        Err(XTypesError::InvalidData)
+        // The discriminator selects no member: the union holds only the discriminator
+        Ok(())
     }
 
     /// Extensibility APPENDABLE (Collection or Aggregated types), version 1
@@ -565,7 +566,8 @@ impl EncodingVersion for EncodingVersion2 {
             return Self::deserialize_mmember(deserializer, member, dynamic_data);
         }
 
-        Err(XTypesError::InvalidData)
+        // The discriminator selects no member: the union holds only the discriminator
+        Ok(())
     }
 
     /// Extensibility APPENDABLE (Collection or Aggregated types), version 2
@@ -1179,7 +1181,8 @@ impl<'a, E: EndiannessRead, V: EncodingVersion> XTypesDeserializer<'a, E, V> {
             return self.deserialize_fmember(member, dynamic_data);
         }
 
-        Err(XTypesError::InvalidData)
+        // The discriminator selects no member: the union holds only the discriminator
+        Ok(())
     }
 }
 
